@@ -767,7 +767,10 @@ fn observe(g: &mut G, rng: &Shared, m: &Model, stats: &mut std::collections::BTr
             match (r0, tr0.get(0)) {
                 (Ok(_), Some(t0)) => {
                     if reg_of(t0) != reg || t0.p_to_flip.to_bits() != t.p_to_flip.to_bits() {
-                        fails.push("the same proposal words did not reproduce the proposal".into());
+                        fails.push(format!(
+                            "acceptance rule: the {} words before the accept draw (all but one accept word iff p < 1 and one word per rotated operator) followed by another accept word did not reproduce the proposal — the update does not draw its accept word as specified",
+                            prefix
+                        ));
                     } else if t0.accepted != want {
                         fails.push(format!(
                             "acceptance rule: p_to_flip = {:e}, accept word {} ({} p*2^64 = {}) but the proposal was {}",
@@ -849,6 +852,32 @@ fn observe(g: &mut G, rng: &Shared, m: &Model, stats: &mut std::collections::BTr
         let cps_b = const_ps(&before, m.nvars);
         if const_ps(&after, m.nvars) != cps_b || after.slots.len() != before.slots.len() {
             rfails.push("the update changed the positions of constant operators or the cutoff (the data the proposal reads)".into());
+        }
+        // F21: the cluster never grows across an edge with J = 0: all variables that are inside the
+        // cluster at some time lie in one connected component of the graph of non-zero couplings
+        {
+            let mut inside: Vec<usize> = reg.subvars.iter().zip(reg.start.iter()).filter(|(_, b)| **b).map(|(v, _)| *v).collect();
+            for p in &reg.toggles {
+                if let Some(Some(o)) = before.slots.get(*p) {
+                    inside.extend(o.vars.iter().cloned());
+                }
+            }
+            let mut comp: Vec<usize> = (0..m.nvars).collect();
+            for _ in 0..m.nvars {
+                for ((x, y), j) in &m.edges {
+                    if *j != 0.0 {
+                        let c = comp[*x].min(comp[*y]);
+                        comp[*x] = c;
+                        comp[*y] = c;
+                    }
+                }
+            }
+            if inside.iter().any(|v| comp[*v] != comp[inside[0]]) {
+                rfails.push(format!("F21: the cluster {:?} spans variables that are connected only through J = 0 edges", inside));
+            }
+            if m.edges.iter().any(|e| e.1 == 0.0) {
+                *stats.entry("region_on_diluted_graph".into()).or_insert(0) += 1;
+            }
         }
         let mut gs = g_before.clone();
         rng.free();
@@ -959,11 +988,21 @@ fn models(g: &mut SplitMix64, thorough: bool) -> Vec<Model> {
         v.push(Model { name: "underflow", nvars: 3, edges: vec![((0, 1), 2.0), ((0, 2), 2.0), ((1, 2), 0.125)], gamma: 0.5, h: 0.0, beta: 4.0 });
         // weak transverse field: few constant operators, idle variables occur
         v.push(Model { name: "weak_gamma", nvars: 4, edges: vec![((0, 1), 1.0), ((1, 2), 1.0), ((2, 3), 1.0), ((0, 3), 1.0), ((0, 2), 0.5)], gamma: 0.125, h: 0.0, beta: *g.pick(&betas) });
+        // diluted graphs: some couplings exactly 0 (F21: the cluster must not grow across them, no panic)
+        v.push(Model { name: "diluted_triangle", nvars: 3, edges: vec![((0, 1), *g.pick(&js)), ((1, 2), 0.0), ((0, 2), *g.pick(&js))], gamma: *g.pick(&gammas), h: if rep % 3 == 2 { 0.5 } else { 0.0 }, beta: *g.pick(&betas) });
+        let n = g.range(4, 5) as usize;
+        let mut e: Vec<((usize, usize), f64)> = (0..n).map(|i| ((i, (i + 1) % n), if g.chance(1, 3) { 0.0 } else { *g.pick(&js) * if g.coin() { 1.0 } else { -1.0 } })).collect();
+        e.push(((0, 2), 0.0));
+        e[1].1 = 0.0;
+        v.push(Model { name: "diluted_ring", nvars: n, edges: e, gamma: *g.pick(&gammas), h: 0.0, beta: *g.pick(&betas) });
+        // weak field (idle variables) + zero couplings + a variable attached only through J = 0 edges
+        v.push(Model { name: "diluted_weak_gamma", nvars: 4, edges: vec![((0, 1), 0.0), ((1, 2), 1.0), ((2, 3), 0.0), ((0, 2), 0.5), ((0, 3), 0.0)], gamma: if rep % 2 == 0 { 0.125 } else { 0.5 }, h: 0.0, beta: *g.pick(&betas) });
     }
     v
 }
 
 fn rvb_mode(a: &Args) {
+    j0_regression();
     let mut gen = SplitMix64::new(a.seed ^ 0x3C03);
     let mut stats = std::collections::BTreeMap::new();
     let per_model = if a.thorough { 80 } else { 40 };
@@ -1179,25 +1218,40 @@ fn pipeline_mode(a: &Args) {
     }
 }
 
-/// Side mode (not part of the check): an edge with J = 0 next to an idle variable. `build_cluster`
-/// pushes the neighbour with weight `bond_mag = 0`; the next `pop_index` computes 0/0 = NaN and
-/// `gen_bool(NaN)` panics. The exact proposal model predicts the same (`PANIC`).
-fn j0probe_mode() {
-    let rng = Shared(Rc::new(RefCell::new(RecRng::new(1))));
-    let m = Model { name: "j0", nvars: 2, edges: vec![((0, 1), 0.0)], gamma: 1.0, h: 0.0, beta: 1.0 };
-    let mut g = G::new_with_rng(m.edges.clone(), m.gamma, m.h, 4, rng.clone(), Some(vec![false, true]));
-    let before = snap(&g);
-    // start choice 0 (idle variable 0), size word 1 (one trailing one => cluster size 2), then free draws
-    rng.script(&[0, 1, 12345]);
-    let _ = take_trace();
-    let res = catch(std::panic::AssertUnwindSafe(|| g.single_rvb_sweep(Some(1))));
-    let log = rng.log();
-    rng.free();
-    let (out, oracle) = match res {
-        Ok(_) => ("ok".to_string(), Ok(())),
-        Err(msg) => ("PANIC".to_string(), Err(format!("single_rvb_sweep panicked on a graph with a J = 0 edge: {}", msg))),
-    };
-    emit(true, &format!("region {} {} {} {}", m.nvars, show_edges(&m), before.text, list(&log)), &format!("- - - {} {}", log.len(), out), Some(oracle));
+/// F21 regression (fixed in /repo d15cfb0): an edge with J = 0 next to an idle variable. Before the
+/// fix `build_cluster` pushed the neighbour with weight `bond_mag = 0`; the next `pop_index` computed
+/// 0/0 = NaN and `gen_bool(NaN)` panicked. Scripted: start at the idle variable 0, cluster size 2.
+fn j0_regression() {
+    for (nvars, edges) in [(2usize, vec![((0usize, 1usize), 0.0f64)]), (3, vec![((0, 1), 0.0), ((0, 2), 0.0), ((1, 2), 1.0)])] {
+        let rng = Shared(Rc::new(RefCell::new(RecRng::new(1))));
+        let m = Model { name: "j0", nvars, edges, gamma: 1.0, h: 0.0, beta: 1.0 };
+        let state: Vec<bool> = (0..nvars).map(|v| v % 2 == 1).collect();
+        let mut g = G::new_with_rng(m.edges.clone(), m.gamma, m.h, 4, rng.clone(), Some(state));
+        let before = snap(&g);
+        // start choice 0 (idle variable 0), size word 1 (one trailing one => cluster size 2), then free draws
+        rng.script(&[0, 1]);
+        let _ = take_trace();
+        let res = catch(std::panic::AssertUnwindSafe(|| g.single_rvb_sweep(Some(1))));
+        let log = rng.log();
+        rng.free();
+        let tr = take_trace();
+        let input = format!("region {} {} {} {}", m.nvars, show_edges(&m), before.text, list(&log));
+        match (res, tr.get(0)) {
+            (Ok(_), Some(t)) => {
+                let reg = reg_of(t);
+                let tail = (t.p_to_flip < 1.0) as usize;
+                let ok = reg.subvars == vec![0] && reg.start == vec![true];
+                emit(
+                    true,
+                    &input,
+                    &format!("{} {} {} {} ok", list(&reg.subvars), bits(&reg.start), list(&reg.toggles), log.len() - tail),
+                    Some(if ok { Ok(()) } else { Err(format!("F21: the cluster grew across a J = 0 edge: {:?}", reg)) }),
+                );
+            }
+            (Err(msg), _) => emit(true, &input, &format!("- - - {} PANIC", log.len()), Some(Err(format!("F21: single_rvb_sweep panicked on a graph with a J = 0 edge: {}", msg)))),
+            _ => emit(true, &input, "- - - 0 PANIC", Some(Err("no trace".into()))),
+        }
+    }
 }
 
 fn main() {
@@ -1207,7 +1261,6 @@ fn main() {
         "helpers" => helpers_mode(&a),
         "rvb" => rvb_mode(&a),
         "pipeline" => pipeline_mode(&a),
-        "j0probe" => j0probe_mode(),
         _ => {
             helpers_mode(&a);
             rvb_mode(&a);
